@@ -73,6 +73,13 @@ def _inline_block(body, st, ld):
                     changed = True
                     i += 1
                     continue
+                if isinstance(nxt, ast.If) and isinstance(nxt.test, ast.UnaryOp) and isinstance(nxt.test.op, ast.Not) \
+                        and isinstance(nxt.test.operand, ast.Name) and nxt.test.operand.id == t and "N1c" not in _SKIP:
+                    # N1c: `fits = a <= b` ... `if not fits:`
+                    nxt.test = ast.copy_location(ast.UnaryOp(op=ast.Not(), operand=s.value), nxt.test)
+                    changed = True
+                    i += 1
+                    continue
                 # N1b: a PURE temporary (names, attribute chains, constant subscripts: nothing that can
                 # have an effect, so evaluation order does not matter) used once in the next simple statement
                 if _pure(s.value) and isinstance(nxt, (ast.Return, ast.Assign, ast.AugAssign, ast.Expr, ast.Raise, ast.Assert, ast.If)) \
@@ -283,7 +290,11 @@ class _ExprNF(ast.NodeTransformer):
         self.generic_visit(n)
         if len(n.targets) == 1 and isinstance(n.targets[0], (ast.Name, ast.Attribute)) and isinstance(n.value, ast.BinOp) \
                 and isinstance(n.value.op, (ast.Add, ast.Sub, ast.BitOr, ast.BitAnd, ast.Mult)) \
-                and ast.dump(n.value.left) == ast.dump(n.targets[0]).replace("Store()", "Load()"):
+                and ast.dump(n.value.left) == ast.dump(n.targets[0]).replace("Store()", "Load()") \
+                and not (isinstance(n.targets[0], ast.Name) and (isinstance(n.value.op, (ast.BitOr, ast.BitAnd))
+                                                              or isinstance(n.value.right, (ast.List, ast.Set, ast.Dict, ast.Tuple, ast.ListComp, ast.SetComp, ast.DictComp)))):
+            # (for a local, `x = x | e` / `x = x + [e]` REBINDS x to a new container while `x |= e` changes the one it
+            # shares with whoever else holds it: those are not the same statement and stay as written)
             t = n.targets[0]
             return ast.copy_location(ast.AugAssign(target=t, op=n.value.op, value=n.value.right), n)
         return n
@@ -610,7 +621,72 @@ def _get_with_default(fn):
     T().visit(fn)
 
 
+def _plain_assigns(fn):
+    """E21: `x: T = v` inside a function is `x = v` (the annotation of a local has no effect at run time).
+    E22: `if (n := v) ...:` with the walrus as the test itself, under `not`, or as the left operand of a comparison, is
+    `n = v` followed by the test on `n` (the binding is evaluated first and unconditionally)."""
+    for n in ast.walk(fn):
+        for b in _blocks(n):
+            out = []
+            for s in b:
+                if isinstance(s, ast.AnnAssign) and s.value is not None and s.simple and isinstance(s.target, ast.Name) and "E21" not in _SKIP:
+                    # (the annotation is kept as the statement's type comment: the call graph reads local types from it)
+                    s = ast.copy_location(ast.Assign(targets=[s.target], value=s.value, type_comment=ast.unparse(s.annotation)), s)
+                if isinstance(s, ast.If) and "E22" not in _SKIP:
+                    t = s.test
+                    holder, attr = None, None
+                    if isinstance(t, ast.NamedExpr):
+                        holder, attr = s, "test"
+                    elif isinstance(t, ast.UnaryOp) and isinstance(t.op, ast.Not) and isinstance(t.operand, ast.NamedExpr):
+                        holder, attr = t, "operand"
+                    elif isinstance(t, ast.Compare) and isinstance(t.left, ast.NamedExpr):
+                        holder, attr = t, "left"
+                    if holder is not None:
+                        w = getattr(holder, attr)
+                        if isinstance(w.target, ast.Name):
+                            out.append(ast.copy_location(ast.Assign(targets=[ast.Name(id=w.target.id, ctx=ast.Store())], value=w.value, type_comment=None), s))
+                            setattr(holder, attr, ast.copy_location(ast.Name(id=w.target.id, ctx=ast.Load()), w))
+                out.append(s)
+            b[:] = out
+
+
+def _ifexp_statements(fn):
+    """E20: `return A if c else B` / `v = A if c else B` where an arm contains a call is written as an if statement, so that
+    the effects in the arms are statements of their own on the CFG (an arm that cannot run is then visibly unreachable).
+    Only for a plain Name / attribute target, and only when the test does not read the target."""
+    if "E20" in _SKIP:
+        return
+    for n in ast.walk(fn):
+        for b in _blocks(n):
+            out = []
+            for s in b:
+                v = getattr(s, "value", None)
+                if isinstance(s, (ast.Return, ast.Assign)) and isinstance(v, ast.IfExp) \
+                        and any(isinstance(x, ast.Call) for arm in (v.body, v.orelse) for x in ast.walk(arm)):
+                    if isinstance(s, ast.Assign):
+                        if len(s.targets) != 1 or not isinstance(s.targets[0], (ast.Name, ast.Attribute)):
+                            out.append(s)
+                            continue
+                        tgt = ast.unparse(s.targets[0])
+                        if any(isinstance(x, (ast.Name, ast.Attribute)) and ast.unparse(x) == tgt for x in ast.walk(v.test)):
+                            out.append(s)
+                            continue
+
+                        def mk(val, s=s):
+                            import copy as _copy
+                            return ast.copy_location(ast.Assign(targets=[_copy.deepcopy(s.targets[0])], value=val, type_comment=None), s)
+                    else:
+                        def mk(val, s=s):
+                            return ast.copy_location(ast.Return(value=val), s)
+                    out.append(ast.copy_location(ast.If(test=v.test, body=[mk(v.body)], orelse=[mk(v.orelse)]), s))
+                    continue
+                out.append(s)
+            b[:] = out
+
+
 def _canon_function(fn):
+    _plain_assigns(fn)
+    _ifexp_statements(fn)
     _split_withs(fn)
     _thread_flag_ifs(fn)
     if "E18" not in _SKIP:
